@@ -296,6 +296,14 @@ def _hyperv_fields(raw):
 def _field_faults(seed):
     raw = seed["raw"]
     structure_offsets = sorted({off for (_, off, w, en, role) in seed["fields"] if role == "header"} | {0})
+    # current values of the table fields, per width: their negatives (two's complement) are what a field read with the wrong
+    # signedness turns a step / size / offset into -- a walk that moves backwards by exactly one earlier element
+    small = {}
+    for name, off, w, en, role in seed["fields"]:
+        if role == "table" and w in (2, 4, 8) and en != "text" and off + w <= len(raw):
+            c, = struct.unpack_from(en + {2: "H", 4: "I", 8: "Q"}[w], raw, off)
+            if 0 < c < 65536:
+                small.setdefault(w, set()).add(c)
     for name, off, w, en, role in seed["fields"]:
         if off + w > len(raw):
             continue
@@ -310,6 +318,9 @@ def _field_faults(seed):
             vals = {0, 1, 2, mx, mx - 1, cur + 1, cur - 1, cur * 2, off, off // 512, mx >> 1, (mx >> 1) + 1, 1 << (4 * w)}
             for so in structure_offsets[:12]:
                 vals.update({so, so // 512, so >> 9 << 9})
+            if role == "table" and w >= 2:
+                vals.update(mx + 1 - c for c in sorted(small.get(w, ()))[:12])
+                vals.update(mx + 1 - c for c in (8, 16, 32, 40, 64, 512))
             for v in sorted(x for x in vals if 0 <= x <= mx and x != cur):
                 yield name, off, struct.pack(fmt, v)
         else:
@@ -531,6 +542,13 @@ def _special_cases():
         out.append({"kind": "special", "what": "vmdk-parent-chain-cycle", "depth": depth})
     for tgt in ("pax-header", "first-header", "own-header"):
         out.append({"kind": "special", "what": "vmtar-pax-size-then-visor-offset-backwards", "target": tgt})
+    # extension headers (pax x / X / g, GNU long name L / long link K) at every position of a short member sequence: listing
+    # terminates whatever the neighbours are
+    for typ in ("x", "X", "g", "L", "K"):
+        for rec in ("path", "size", "comment"):
+            if typ in "LK" and rec != "path":
+                continue
+            out.append({"kind": "special", "what": "vmtar-extension-headers", "typ": typ, "rec": rec})
     return out
 
 
@@ -788,6 +806,50 @@ def _run_special(case, ctx):
         vis = BT.hdr("d/file", 700, offset_data=target)
         raw = first + pax + vis + b"\0" * 1024 + b"D" * 1024
         return _execute(ctx, case, _seed("vmtar"), raw, subject, drv_vmtar, {})
+    if what == "vmtar-extension-headers":
+        import itertools as _it
+
+        from mc.builders import vmtar as BT
+
+        typ, rec = case["typ"], case["rec"]
+
+        def record(k, v):
+            body = f" {k}={v}\n".encode()
+            n = len(body) + 1
+            while len(str(n)) + len(body) != n:
+                n = len(str(n)) + len(body)
+            return str(n).encode() + body
+
+        if typ in "LK":
+            payload = ("long/" + "n" * 140 + "/name").encode() + b"\0"
+            ext = BT.hdr("././@LongLink", len(payload), typ=typ.encode(), visor=False) + BT.pad512(payload)
+        else:
+            payload = {"path": record("path", "p/" + "q" * 130), "size": record("size", "513"), "comment": record("comment", "c")}[rec]
+            ext = BT.hdr("././@PaxHeader", len(payload), typ=typ.encode(), visor=False) + BT.pad512(payload)
+        kinds = {
+            "vfile": lambda i, off: BT.hdr(f"m{i}", 513, offset_data=off),
+            "vdir": lambda i, off: BT.hdr(f"m{i}/", 0, typ=b"5", mode=0o755),
+            "vempty": lambda i, off: BT.hdr(f"m{i}", 0),
+            "ufile": lambda i, off: BT.hdr(f"m{i}", 513, visor=False) + BT.pad512(b"U" * 513),
+        }
+        ok = True
+        only = case.get("only")
+        n = 0
+        # sequences of three members with the extension header in front of the 1st, 2nd or 3rd
+        for seq in _it.product(kinds, repeat=3):
+            for pos in (0, 1, 2):
+                n += 1
+                if only is not None and only != n:
+                    continue
+                heads = b""
+                for i, k in enumerate(seq):
+                    if i == pos:
+                        heads += ext
+                    heads += kinds[k](i, 0x4000 + 0x1000 * i)
+                raw = (heads + b"\0" * 1024).ljust(0x4000, b"\0") + b"D" * 0x3000
+                if not _execute(ctx, dict(case, only=n, seq=list(seq), pos=pos), _seed("vmtar"), raw, subject, drv_vmtar, {}):
+                    return False
+        return ok
     if what == "vmdk-parent-chain-cycle":
         depth = case["depth"]
 
